@@ -148,7 +148,7 @@ func c11Scenarios(tier string) []e1lib.Scenario {
 	}
 	maxLen := 3
 	if tier == "thorough" {
-		maxLen = 4
+		maxLen = 5
 	}
 	// liveness: the consumer keeps receiving after it cancelled; explored under the restriction that a thread which can
 	// take a cancelled context's Done arm does so (rt.DonePriority): the generator must then stop within the horizon
@@ -202,6 +202,6 @@ func c11Scenarios(tier string) []e1lib.Scenario {
 
 func propC11() drv.Property {
 	return table("C11",
-		"one case = Emit (cap 0..2, frequency 1 or 3 ticks, Pure / Try with every failing subset of indices 0..3 / Lift) or Unfold (cap 0..2, step +1 / x2 / constant) x consumer receive schedule (every script of gaps over {0, f, 2f} up to 3 (4) receives, after which the consumer cancels) x cancel by a separate thread at every clock grid point 0..4f+1; virtual clock, every interleaving at equal instants explored; plus liveness scenarios in which the consumer keeps receiving after it cancelled, explored under the restriction that an enabled Done arm of a cancelled context is taken at once (an execution reaching the 400-step horizon there means the generator does not consult the context); non-trivial = script of at least two receives",
+		"one case = Emit (cap 0..2, frequency 1 or 3 ticks, Pure / Try with every failing subset of indices 0..3 / Lift) or Unfold (cap 0..2, step +1 / x2 / constant) x consumer receive schedule (every script of gaps over {0, f, 2f} up to 3 (5) receives, after which the consumer cancels) x cancel by a separate thread at every clock grid point 0..4f+1; virtual clock, every interleaving at equal instants explored; plus liveness scenarios in which the consumer keeps receiving after it cancelled, explored under the restriction that an enabled Done arm of a cancelled context is taken at once (an execution reaching the 400-step horizon there means the generator does not consult the context); non-trivial = script of at least two receives",
 		append(commonAssumptions, "time is the virtual clock of rt: it advances only when no thread can run (the rule of testing/synctest); real-time jitter is not modelled"), c11Scenarios)
 }
